@@ -73,38 +73,42 @@ var corpus = []pat{
 // start position (interpreter-loop deadline check) or across many start
 // positions (scan-loop check).
 type catFam struct {
-	Pat  string
-	Opts int
-	In   InputSpec
-	Kind string
+	Pat   string
+	Opts  int
+	In    InputSpec
+	Kind  string
+	Probe string // optional: a short input the pattern matches (for the quick calls that follow an aborted one)
 }
 
 var catastrophic = []catFam{
-	{`(a+)+$`, 0, InputSpec{Unit: "a", Rep: 44, Suf: "!"}, "one-start"},
-	{`(a|aa)+$`, 0, InputSpec{Unit: "a", Rep: 60, Suf: "!"}, "one-start"},
-	{`^(\w+\s?)*$`, 0, InputSpec{Unit: "word ", Rep: 30, Suf: "!"}, "one-start"},
-	{`(x+x+)+y`, 0, InputSpec{Unit: "x", Rep: 48}, "many-starts"},
-	{`(?:a*)*b|(?:a*a*a*a*a*a*a*a*c)`, 0, InputSpec{Unit: "a", Rep: 400}, "many-starts"},
-	{`(.*?,){12}P`, 0, InputSpec{Unit: "1,2,3,4,5,", Rep: 12}, "many-starts"},
+	{`(a+)+$`, 0, InputSpec{Unit: "a", Rep: 44, Suf: "!"}, "one-start", ""},
+	{`(a|aa)+$`, 0, InputSpec{Unit: "a", Rep: 60, Suf: "!"}, "one-start", ""},
+	{`^(\w+\s?)*$`, 0, InputSpec{Unit: "word ", Rep: 30, Suf: "!"}, "one-start", ""},
+	{`(x+x+)+y`, 0, InputSpec{Unit: "x", Rep: 48}, "many-starts", ""},
+	{`(?:a*)*b|(?:a*a*a*a*a*a*a*a*c)`, 0, InputSpec{Unit: "a", Rep: 400}, "many-starts", ""},
+	{`(.*?,){12}P`, 0, InputSpec{Unit: "1,2,3,4,5,", Rep: 12}, "many-starts", ""},
 	// cheap at every start position, quadratic over all of them: only a deadline that covers the whole
 	// call (not one attempt) fires
-	{`(\w+)\s*=`, 0, InputSpec{Unit: "ab", Rep: 160}, "quadratic-scan"},
-	{`=\s*(\w+)`, oRTL, InputSpec{Unit: "ba", Rep: 160}, "quadratic-scan"},
-	{`(\w+)\s*=`, oI, InputSpec{Unit: "aB", Rep: 170}, "quadratic-scan"},
+	{`(\w+)\s*=`, 0, InputSpec{Unit: "ab", Rep: 160}, "quadratic-scan", ""},
+	{`=\s*(\w+)`, oRTL, InputSpec{Unit: "ba", Rep: 160}, "quadratic-scan", ""},
+	{`(\w+)\s*=`, oI, InputSpec{Unit: "aB", Rep: 170}, "quadratic-scan", ""},
+	// catastrophic inside a lookbehind (the interpreter runs right-to-left there), behind a leading set
+	{`\w+(?<=^\d(?:\w|\w\w)*)`, 0, InputSpec{Unit: "a", Rep: 30}, "lookbehind", "1ab2 x"},
+	{`[a-z]+(?<=^\d(?:[a-z]|[a-z][a-z])*)\d`, 0, InputSpec{Unit: "ab", Rep: 16}, "lookbehind", "ab1"},
 }
 
 // Quick (pattern, input) pairs for timed operations that finish well inside any deadline.
 var quickTimed = []catFam{
-	{`(\w+)\s(\w+)`, 0, lit("hello world"), "quick"},
-	{`\d+`, 0, lit("abc 123 def"), "quick"},
-	{`(a+)+$`, 0, lit("aaaa"), "quick"},
-	{`foo(bar)?`, oI, lit("xx FOOBAR yy"), "quick"},
-	{`(?<=x)y`, 0, lit("aaxyb"), "quick"},
+	{`(\w+)\s(\w+)`, 0, lit("hello world"), "quick", ""},
+	{`\d+`, 0, lit("abc 123 def"), "quick", ""},
+	{`(a+)+$`, 0, lit("aaaa"), "quick", ""},
+	{`foo(bar)?`, oI, lit("xx FOOBAR yy"), "quick", ""},
+	{`(?<=x)y`, 0, lit("aaxyb"), "quick", ""},
 	// several matches: the scans that continue after the first match are timed, too
-	{`\d+`, 0, lit("1 22 333 4 55 666 7 88 999 0"), "quick-multi"},
-	{`(\w+)\s(\w+)`, 0, lit("aa bb cc dd ee ff gg hh"), "quick-multi"},
-	{`[a-z]`, oI, lit("aBcDeFgHiJkLmN"), "quick-multi"},
-	{`x*`, 0, lit("xxaxxbxx"), "quick-multi"},
+	{`\d+`, 0, lit("1 22 333 4 55 666 7 88 999 0"), "quick-multi", ""},
+	{`(\w+)\s(\w+)`, 0, lit("aa bb cc dd ee ff gg hh"), "quick-multi", ""},
+	{`[a-z]`, oI, lit("aBcDeFgHiJkLmN"), "quick-multi", ""},
+	{`x*`, 0, lit("xxaxxbxx"), "quick-multi", ""},
 }
 
 // Replacement strings: more than any per-Regexp cache size used.
